@@ -125,6 +125,25 @@ impl C02 {
         };
         // sanity: the untouched token is accepted
         deliver(&mut b, vec![]);
+        // the encoding suffix is part of the header: the same bytes under "v4c.local." are not a token
+        // of the suffixed encoding, and a token of the suffixed encoding is none of the plain one
+        {
+            let sfx_hdr = format!("v{}c.{}.", bk.family(), purpose.name());
+            let plain_hdr = format!("v{}.{}.", bk.family(), purpose.name());
+            b.push(Step::Deliver { tok, node: 0, key: vkey, purpose: None, faults: vec![TokFault::Relabel { header: sfx_hdr }], pk: Some(PayloadKind::RawC), fk: fkind, validator: v.clone(), alias: false, now_ns: now, pair_with: None });
+            let tok_c = b.tok_slot();
+            let rng = b.healthy_rng();
+            let (footer_c, aad_c) = match b.plan.steps.iter().find_map(|s| if let Step::Seal { footer, aad, .. } = s { Some((footer.clone(), aad.clone())) } else { None }) {
+                Some(x) => x,
+                None => (FootSpec::Unit, Bytes::empty()),
+            };
+            let bytes_c = b.bytes(msg_len);
+            b.push(Step::Seal { tok: tok_c, node: 0, key, purpose, claims: ClaimsSpec::RawC { bytes: bytes_c }, footer: footer_c, aad: aad_c, nonce: None, alias: false, rng, now_ns: now });
+            b.push(Step::Deliver { tok: tok_c, node: 0, key: vkey, purpose: None, faults: vec![], pk: None, fk: fkind, validator: VSpec::None, alias: false, now_ns: now, pair_with: None });
+            b.push(Step::Deliver { tok: tok_c, node: 0, key: vkey, purpose: None, faults: vec![TokFault::Relabel { header: plain_hdr }], pk: Some(if self.probe { PayloadKind::Probe } else { PayloadKind::Raw }), fk: fkind, validator: v.clone(), alias: false, now_ns: now, pair_with: None });
+            // and the first token again, now that both headers have been in use
+            b.push(Step::Deliver { tok, node: 0, key: vkey, purpose: None, faults: vec![], pk, fk: fkind, validator: v.clone(), alias: false, now_ns: now, pair_with: None });
+        }
         for byte in 0..total {
             for bit in 0..8 {
                 deliver(&mut b, vec![TokFault::FlipPayload { byte, bit }]);
@@ -406,6 +425,12 @@ impl C02 {
                 if let Some(t2) = pair_tok {
                     b.push(Step::Deliver { tok: t2, node, key, purpose: purp_over, faults, pk, fk: fk_over, validator: self.validator(), alias: false, now_ns: now, pair_with: Some(idx) });
                 }
+            }
+            // relabelled into the encoding with header suffix "c", read by that encoding's parser
+            if b.rng.chance(1, 2) {
+                let node = if bk.sibling().is_some() && b.rng.bool() { 2 } else { 0 };
+                let fk_over = if foot_len == 0 { Some(crate::backend::FootKind::Bytes) } else { None };
+                b.push(Step::Deliver { tok, node, key: vkey, purpose: None, faults: vec![TokFault::Relabel { header: format!("v{}c.{}.", bk.family(), purpose.name()) }], pk: Some(PayloadKind::RawC), fk: fk_over, validator: self.validator(), alias: false, now_ns: now, pair_with: None });
             }
             // and the untouched token still verifies (fault-free configuration inside the same run)
             b.push(Step::Deliver { tok, node: 0, key: vkey, purpose: None, faults: vec![], pk: None, fk: None, validator: self.validator(), alias: false, now_ns: now, pair_with: None });
